@@ -178,14 +178,14 @@ Qed.
 
 Lemma scan_table n : forall s, (length s <= n)%nat -> forall start cur idx off best,
   start + cur <= off -> (cur <> 0 \/ s <> []) ->
-  lc_impl_scan s (off - (start + cur)) (idx + 1) (cur + 1) =
+  lc_impl_scan_old s (off - (start + cur)) (idx + 1) (cur + 1) =
     if off <=? start + cur + blen s
     then let '(i, st) := lc_find_line (lines_acc s start cur) off idx best in Some (i + 1, off - st + 1)
     else None.
 Proof.
   induction n as [|n IH]; intros s Hlen start cur idx off best Hoff Hne.
   - destruct s; [|cbn in Hlen; lia]. destruct Hne as [Hc|]; [|congruence].
-    cbn [lc_impl_scan lines_acc blen]. replace (cur =? 0) with false by lia. cbn [lc_find_line].
+    cbn [lc_impl_scan_old lines_acc blen]. replace (cur =? 0) with false by lia. cbn [lc_find_line].
     replace (start <=? off) with true by lia.
     destruct (N.eqb_spec (off - (start + cur)) 0) as [E|E].
     + replace (off <=? start + cur + 0) with true by lia. f_equal. f_equal. lia.
@@ -193,7 +193,7 @@ Proof.
   - destruct s as [|c r]; [apply (IH []); [cbn; lia|exact Hoff|exact Hne]|].
     cbn [length] in Hlen. assert (Hr : (length r <= n)%nat) by lia.
     pose proof (u8len_pos c) as Hpos.
-    cbn [lc_impl_scan]. destruct (N.ltb_spec (off - (start + cur)) (u8len c)) as [Hin|Hout].
+    cbn [lc_impl_scan_old]. destruct (N.ltb_spec (off - (start + cur)) (u8len c)) as [Hin|Hout].
     + (* the offset lies on the current line, before the end of c *)
       cbn [blen]. replace (off <=? start + cur + (u8len c + blen r)) with true by lia.
       destruct (lines_acc_cons (c :: r) start cur) as (m & r' & E & Hm); [right; discriminate|].
@@ -271,10 +271,10 @@ Definition res_of (o : option (N * N)) : lcres :=
   match o with Some (l, c) => LcSome l c | None => LcNone end.
 
 (* SourceFile::get_line_column = the one-pass scan *)
-Theorem impl_line_col_scan s off : lc_impl_line_col s off = res_of (lc_impl_scan s off 1 1).
+Theorem impl_line_col_old_scan s off : lc_impl_line_col_old s off = res_of (lc_impl_scan_old s off 1 1).
 Proof.
-  unfold lc_impl_line_col. rewrite source_lines_acc. destruct s as [|c r].
-  - unfold lc_get_byte_line. cbn [lc_source_byte_len fold_left snd lc_impl_scan].
+  unfold lc_impl_line_col_old. rewrite source_lines_acc. destruct s as [|c r].
+  - unfold lc_get_byte_line. cbn [lc_source_byte_len fold_left snd lc_impl_scan_old].
     destruct (N.eqb_spec off 0) as [->|H]; [reflexivity|].
     replace (off <=? 0 + 0) with false by lia. reflexivity.
   - pose proof (scan_table (length (c :: r)) (c :: r) (Nat.le_refl _) 0 0 0 off (0, 0)
@@ -292,8 +292,8 @@ Proof.
     replace (off <? st) with false by lia. cbn [res_of]. f_equal; lia.
 Qed.
 
-Corollary impl_line_col_no_panic s off : lc_impl_line_col s off <> LcPanic.
-Proof. rewrite impl_line_col_scan. destruct (lc_impl_scan s off 1 1) as [[l c]|]; discriminate. Qed.
+Corollary impl_line_col_old_no_panic s off : lc_impl_line_col_old s off <> LcPanic.
+Proof. rewrite impl_line_col_old_scan. destruct (lc_impl_scan_old s off 1 1) as [[l c]|]; discriminate. Qed.
 
 (* ------------------------------------------------------------------ the scan against the specification *)
 
@@ -317,15 +317,15 @@ Proof. unfold lc_is_ariadne_sep, lc_is_extra_sep. unf. lia. Qed.
 Lemma scan_spec n : forall s, (length s <= n)%nat -> forall off line col1 col2 acc,
   (acc = false -> col1 = col2) ->
   lc_k_sep s off = false -> lc_k_col_scan s off acc = false -> lc_k_eof s off = false ->
-  lc_impl_scan s off line col1 = lc_scan s off line col2.
+  lc_impl_scan_old s off line col1 = lc_scan s off line col2.
 Proof.
   induction n as [|n IH]; intros s Hlen off line col1 col2 acc Hcol Hsep Hkc Heof.
-  - destruct s; [|cbn in Hlen; lia]. cbn [lc_impl_scan lc_scan lc_k_col_scan] in *.
+  - destruct s; [|cbn in Hlen; lia]. cbn [lc_impl_scan_old lc_scan lc_k_col_scan] in *.
     rewrite (Hcol Hkc). reflexivity.
   - destruct s as [|c r]; [apply (IH [] ltac:(cbn; lia) off line col1 col2 acc); assumption|].
     cbn [length] in Hlen. assert (Hr : (length r <= n)%nat) by lia.
     pose proof (u8len_pos c) as Hpos.
-    cbn [lc_impl_scan lc_scan]. cbn [lc_k_sep lc_k_col_scan] in Hsep, Hkc.
+    cbn [lc_impl_scan_old lc_scan]. cbn [lc_k_sep lc_k_col_scan] in Hsep, Hkc.
     destruct (N.ltb_spec off (u8len c)) as [Hin|Hout].
     + destruct (N.eqb_spec off 0) as [->|H0]; [|discriminate].
       rewrite (Hcol Hkc). f_equal. f_equal. lia.
@@ -380,12 +380,12 @@ Proof.
 Qed.
 
 (* C11, restricted to offsets outside the three known classes *)
-Theorem line_col_correct s off :
-  lc_known_c11 s off = false -> lc_impl_line_col s off = res_of (lc_line_col s off).
+Theorem line_col_old_restricted s off :
+  lc_known_c11 s off = false -> lc_impl_line_col_old s off = res_of (lc_line_col s off).
 Proof.
   unfold lc_known_c11, lc_k_col, lc_line_col. intros H.
   apply orb_false_iff in H as [H Heof]. apply orb_false_iff in H as [Hsep Hcol].
-  rewrite impl_line_col_scan. f_equal.
+  rewrite impl_line_col_old_scan. f_equal.
   apply (scan_spec (length s) s (Nat.le_refl _) off 1 1 1 false); auto.
 Qed.
 
@@ -530,3 +530,56 @@ Proof.
     now replace (u8len c - u8len c =? 0) with true by lia.
   - intros c k H0 Hk. cbn [lc_scan]. now replace (k <? u8len c) with true by lia.
 Qed.
+
+(* ------------------------------------------------------------------ the code since 7d9a6a9 is the specification *)
+
+Lemma new_loop_spec n : forall s, (length s <= n)%nat -> forall index off line col,
+  index <= off -> off <= index + blen s ->
+  lc_scan s (off - index) line col = Some (lc_new_loop s index off line col).
+Proof.
+  induction n as [|n IH]; intros s Hlen index off line col Hlo Hhi.
+  - destruct s; [|cbn in Hlen; lia]. cbn [blen] in Hhi. cbn [lc_scan lc_new_loop].
+    now replace (off - index =? 0) with true by lia.
+  - destruct s as [|c r]; [apply (IH []); [cbn; lia|exact Hlo|exact Hhi]|].
+    cbn [length] in Hlen. assert (Hr : (length r <= n)%nat) by lia.
+    pose proof (u8len_pos c) as Hpos. cbn [blen] in Hhi. cbn [lc_scan lc_new_loop].
+    destruct (N.ltb_spec (off - index) (u8len c)) as [Hin|Hout].
+    + now replace (off <? index + u8len c) with true by lia.
+    + replace (off <? index + u8len c) with false by lia.
+      destruct (N.eqb_spec c c_lf) as [->|Hlf].
+      * replace (u8len c_lf) with 1 in * by reflexivity.
+        replace (c_lf =? c_cr) with false by reflexivity. cbn [andb orb].
+        replace (off - index - 1) with (off - (index + 1)) by lia.
+        destruct r as [|c2 r2]; apply IH; cbn [blen] in *; try lia; exact Hr.
+      * replace (c =? c_lf) with false by lia. cbn [orb].
+        destruct (N.eqb_spec c c_cr) as [->|Hcr].
+        -- replace (u8len c_cr) with 1 in * by reflexivity.
+           destruct r as [|c2 r2].
+           ++ replace (off - index - 1) with (off - (index + 1)) by lia.
+              apply IH; cbn [blen] in *; try lia; exact Hr.
+           ++ destruct (N.eqb_spec c2 c_lf) as [->|Hlf2]; cbn [andb].
+              ** replace (u8len c_lf) with 1 in * by reflexivity. cbn [blen] in Hhi.
+                 replace (u8len c_lf) with 1 in Hhi by reflexivity.
+                 destruct (N.eqb_spec (off - index) 1) as [E|E].
+                 --- now replace (off =? index + 1) with true by lia.
+                 --- replace (off =? index + 1) with false by lia.
+                     replace (off - index - 2) with (off - (index + 1 + 1)) by lia.
+                     cbn [length] in Hr. apply IH; try lia.
+              ** replace (off - index - 1) with (off - (index + 1)) by lia.
+                 apply IH; cbn [blen] in *; try lia; exact Hr.
+        -- replace (c =? c_cr) with false by lia. cbn [andb].
+           replace (off - index - u8len c) with (off - (index + u8len c)) by lia.
+           destruct r as [|c2 r2]; apply IH; cbn [blen] in *; try lia; exact Hr.
+Qed.
+
+Theorem line_col_correct s off : lc_impl_line_col s off = res_of (lc_line_col s off).
+Proof.
+  unfold lc_impl_line_col, lc_line_col. destruct (N.ltb_spec (blen s) off) as [Hgt|Hle].
+  - pose proof (proj2 (lc_scan_none s off 1 1) Hgt) as ->. reflexivity.
+  - pose proof (new_loop_spec (length s) s (Nat.le_refl _) 0 off 1 1 ltac:(lia) ltac:(lia)) as H.
+    replace (off - 0) with off in H by lia. rewrite H.
+    destruct (lc_new_loop s 0 off 1 1) as [l c]. reflexivity.
+Qed.
+
+Corollary impl_line_col_no_panic s off : lc_impl_line_col s off <> LcPanic.
+Proof. rewrite line_col_correct. destruct (lc_line_col s off) as [[l c]|]; discriminate. Qed.
